@@ -868,6 +868,20 @@ int main(int argc, char** argv)
       for (auto& f : factory_order) std::cout << "F " << f << " result=" << factories[f].result << " sorts=" << (factories[f].sorts.empty() ? "-" : factories[f].sorts) << '\n';
       return 0;
    }
+   {
+      // An earlier Lexicon of the same process, with units and a module of its own, built, used and destroyed before the Lexicon under
+      // observation exists: nothing of it may survive in what the next Lexicon hands out (process-wide memos bound to the first Lexicon).
+      impl::Lexicon earlier;
+      impl::Translation_unit tu{earlier};
+      impl::Module mod{earlier};
+      mod.make_unit();
+      auto& p = earlier.get_pointer(earlier.int_type());
+      auto& q = earlier.get_qualified(earlier.const_qualifier(), p);
+      earlier.get_reference(q);
+      earlier.get_identifier(u8"earlier");
+      tu.global_region()->declare_var(earlier.get_identifier(u8"x"), earlier.int_type());
+      earlier.make_phantom(earlier.int_type());
+   }
    Ctx ctx;
    cx = &ctx;
    std::string line;
